@@ -90,6 +90,11 @@ def gen_config(rng):
             # a deliberately shared experiment: copy of an earlier one, possibly with a tiny difference
             src = rng.choice(list(cfg['experiments'].values()))
             exp = copy.deepcopy(src)
+            if rng.random() < 0.5:
+                # equal env maps written in a different key order are the same configuration detail
+                # (dict equality; the hash must agree with it)
+                src['env'] = {'A_VAR': 'one', 'B_VAR': 'two', 'C_VAR': '3'}
+                exp['env'] = {'C_VAR': '3', 'B_VAR': 'two', 'A_VAR': 'one'}
             r = rng.random()
             if r < 0.3:
                 exp['description'] = 'copy'          # not part of the run identity
